@@ -363,16 +363,17 @@ class Box:
         self.home = self.box + '/home'
         self.tmp = self.box + '/tmp'
 
-    def run(self, conf, args=(), stdin=None, tmpdir=None):
+    def run(self, conf, args=(), stdin=None, tmpdir=None, home=None, default_conf=False):
+        """default_conf: no -f option - the configuration is the one defaultconf() derives from HOME (the caller has put it there)."""
         with open(self.box + '/conf', 'w', encoding='latin-1') as fh:
             fh.write(conf)
         self.conf = conf
-        env = {'PATH': os.environ.get('PATH', ''), 'HOME': self.home, 'TMPDIR': tmpdir or self.tmp, 'LD_PRELOAD': self.tools.shim,
+        env = {'PATH': os.environ.get('PATH', ''), 'HOME': home or self.home, 'TMPDIR': tmpdir or self.tmp, 'LD_PRELOAD': self.tools.shim,
                'VSHIM_LOG': self.box + '.log', 'LC_ALL': 'C', 'EXECHELPER_OUT': self.box + '/helper.out'}
         env.update(proc.PIN)
         self.before = listing(self.box)
         try:
-            r = subprocess.run([self.tools.mdsort, '-f', self.box + '/conf'] + list(args), input=stdin if stdin is not None else b'',
+            r = subprocess.run([self.tools.mdsort] + ([] if default_conf else ['-f', self.box + '/conf']) + list(args), input=stdin if stdin is not None else b'',
                                capture_output=True, env=env, cwd=self.box, timeout=30)
             self.status, self.err = r.returncode, r.stderr.decode('latin-1')
         except subprocess.TimeoutExpired:
@@ -600,6 +601,121 @@ def case_spool_message(tools, total):
     return b.result('spool-message', total, probs)
 
 
+CONF_NAME = '.mdsort.conf'
+
+
+def case_default_conf(tools, hlen, mode):
+    """No -f option: the configuration path is HOME + "/.mdsort.conf" (mdsort.c defaultconf: snprintf into PATH_MAX bytes), HOME a real
+    directory of exactly `hlen` characters that holds the real configuration (moves the message to dst) and, under EVERY name that is a
+    proper prefix of ".mdsort.conf" (".mdsort.con", ".mdsort.co", ... ".m": whatever a truncated path would name), a decoy
+    configuration that moves the message to a decoy maildir.  mode: run (sort the maildir) | syntax (-n) | dry (-d).
+    Fits (hlen + 13 < PATH_MAX): the real configuration is read under exactly its path and obeyed.  Does not fit: an error is
+    reported, non-zero exit, nothing moves, and no call names a truncation of the intended path."""
+    b = Box(tools)
+    H = chain(b.box + '/h', hlen)
+    dmkdir(H)
+    for d in ('decoy/new', 'decoy/cur'):
+        os.makedirs(os.path.join(b.box, d))
+    full = H + '/' + CONF_NAME
+    real = 'maildir "%s/src" {\n\tmatch all move "%s/dst"\n}\n' % (b.box, b.box)
+    decoy = 'maildir "%s/src" {\n\tmatch all move "%s/decoy"\n}\n' % (b.box, b.box)
+    dwrite(full, real.encode())
+    ndecoys = 0
+    for k in range(2, len(CONF_NAME)):
+        ndecoys += bool(dwrite(H + '/' + CONF_NAME[:k], decoy.encode()))
+    dwrite(b.box + '/src/new/1.host', MSG)
+    args = {'run': [], 'syntax': ['-n'], 'dry': ['-d']}[mode]
+    b.run(real, args=args, home=H, default_conf=True)
+    fits = hlen + 1 + len(CONF_NAME) < PATH_MAX
+    probs = []
+    opened = [proc.unescape(t['args'].get('path', '')).decode('latin-1') for t in b.trace if t['kind'] == 'call' and t['name'] == 'fopen']
+    if fits:
+        if opened[:1] != [full]:
+            probs.append('the default configuration path of %d characters fits, but the file opened is %s' %
+                         (len(full), ['%d characters ...%s' % (len(o), o[-16:]) for o in opened[:2]]))
+        if mode == 'run':
+            if b.status != 0 or b.gone != ['./src/new/1.host'] or len(b.appeared) != 1 or not b.appeared[0].startswith('./dst/new/'):
+                probs.append('HOME of %d characters: the default configuration fits and must be obeyed, but exit status %r, appeared %s, disappeared %s; %s' %
+                             (hlen, b.status, ['...' + p[-40:] for p in b.appeared[:2]], b.gone[:2], b.err[-120:]))
+        else:
+            if b.status != 0 or b.appeared or b.gone:
+                probs.append('HOME of %d characters, %s: exit status %r, appeared %s, disappeared %s; %s' %
+                             (hlen, args[0], b.status, b.appeared[:2], b.gone[:2], b.err[-120:]))
+    else:
+        b.rejected('the default configuration path HOME/.mdsort.conf of %d characters (HOME: %d)' % (len(full), hlen), probs)
+        if opened:
+            probs.append('the default configuration path does not fit, yet a configuration file was opened: %s' %
+                         ['%d characters ...%s' % (len(o), o[-16:]) for o in opened[:2]])
+    probs += truncated_calls(b.trace, [full], len(b.box) + 8)
+    return b.result('default-conf-' + mode, hlen, probs, decoys=ndecoys)
+
+
+def case_env_copy(tools, var, n):
+    """readenv(): HOME and TMPDIR are copied into PATH_MAX-byte buffers whatever the mode of the run (strlcpy, >= siz is an error).
+    The value has `n` characters; a maildir run with -f that needs neither.  Shorter than PATH_MAX: the run proceeds as configured.
+    Otherwise: error, non-zero exit, nothing touched."""
+    b = Box(tools)
+    V = chain(b.box + '/e', n)
+    dwrite(b.box + '/src/new/1.host', MSG)
+    kw = {'home': V} if var == 'HOME' else {'tmpdir': V}
+    b.run('maildir "%s/src" {\n\tmatch all move "%s/dst"\n}\n' % (b.box, b.box), **kw)
+    probs = []
+    if n < PATH_MAX:
+        if b.status != 0 or b.gone != ['./src/new/1.host'] or len(b.appeared) != 1 or not b.appeared[0].startswith('./dst/new/'):
+            probs.append('%s of %d characters fits, but exit status %r, appeared %s, disappeared %s; %s' %
+                         (var, n, b.status, b.appeared[:2], b.gone[:2], b.err[-120:]))
+    else:
+        b.rejected('%s of %d characters' % (var, n), probs)
+    probs += truncated_calls(b.trace, [V], len(b.box) + 8)
+    return b.result('readenv-' + var, n, probs)
+
+
+def unit_start(rep, sc):
+    """defaultconf() and readenv() in-process (harness/unit/h_main.c: mdsort.c with main renamed, ASan + UBSan, one child per request)
+    against Model.defaultconf / Model.readenv (M dconf, M renv) and against the statement of C18_defaultconf_exact / C18_readenv_exact:
+    accepted iff the result is shorter than PATH_MAX, and then it is the complete string."""
+    h = sc.unit_harness('h_main', ['mdsort.c'])
+    reqs, want = [], []
+    suffix = ('/' + CONF_NAME).encode()
+    for n in sorted(set(range(0, 20)) | {100, 255, 256, 1024, 2048, 4000} | set(range(PATH_MAX - 30, PATH_MAX + 6)) | {5000, 8192, 70000}):
+        for fill in (b'h', b'/d'):
+            home = (fill * (n // len(fill) + 1))[:n]
+            reqs.append(('dconf', home))
+            want.append('OK ' + vlib.hexs(home + suffix) if n + len(suffix) < PATH_MAX else 'EXIT 1')
+    for n in sorted({1, 2, 100, 4000} | set(range(PATH_MAX - 4, PATH_MAX + 5)) | {9000}):
+        v = (b'/v' * (n // 2 + 1))[:n]
+        reqs.append(('renv', v, b'/t'))
+        want.append('OK %s %s' % (vlib.hexs(v), vlib.hexs(b'/t')) if n < PATH_MAX else 'EXIT 1')
+        reqs.append(('renv', b'/h', v))
+        want.append('OK %s %s' % (vlib.hexs(b'/h'), vlib.hexs(v)) if n < PATH_MAX else 'EXIT 1')
+    reqs.append(('renv', b'/h', b''))
+    want.append('OK %s %s' % (vlib.hexs(b'/h'), vlib.hexs(b'/tmp/')))
+    reqs.append(('renv', b'/h', b'~'))
+    want.append('OK %s %s' % (vlib.hexs(b'/h'), vlib.hexs(b'/tmp/')))
+    lines = [vlib.Differential.line(r) for r in reqs]
+    impl = vlib.run_batch([h], lines, vlib.ASAN_ENV)
+    model = vlib.run_batch([vlib.driver_path()], ['M ' + l for l in lines])
+    bad_spec, bad_model = [], []
+    for r, l, i, m, w in zip(reqs, lines, impl, model, want):
+        if i != w:
+            bad_spec.append((r, l, i, m, w))
+        elif i != m:
+            bad_model.append((r, l, i, m, w))
+    for r, l, i, m, w in bad_spec[:4]:
+        arg = r[1] if r[0] == 'dconf' or len(r[1]) > len(r[2]) else r[2]
+        got = vlib.unhex(i[3:].split(' ')[0]) if i.startswith('OK ') else None
+        what = ('%s with a value of %d characters: implementation %s, expected %s' %
+                ({'dconf': 'defaultconf(home)', 'renv': 'readenv()'}[r[0]], len(arg),
+                 'exit' if got is None else 'a path of %d characters ending ...%s' % (len(got), got[-16:].decode('latin-1')),
+                 'exit status 1' if w.startswith('EXIT') else 'the complete path of %d characters' % len(vlib.unhex(w[3:].split(' ')[0]))))
+        rep.finding('sanitizer-fault' if i.startswith('FAULT') else 'unlisted',
+                    {'family': 'unit-' + r[0], 'harness': 'h_main', 'request': l[:300] + ('...' if len(l) > 300 else ''), 'value_length': len(arg), 'what': [what],
+                     'implementation': i[:80] + '...' + i[-40:] if len(i) > 130 else i, 'model': m[:80] + '...' + m[-40:] if len(m) > 130 else m})
+    return {'requests': len(reqs), 'dconf': sum(1 for r in reqs if r[0] == 'dconf'), 'renv': sum(1 for r in reqs if r[0] == 'renv'),
+            'rejected': sum(1 for w in want if w.startswith('EXIT')), 'spec_failures': len(bad_spec), 'model_mismatches': len(bad_model),
+            'model_examples': [{'request': l[:200], 'implementation': i[:100], 'model': m[:100]} for r, l, i, m, w in bad_model[:5]]}
+
+
 def pslice_spec(path, siz, beg, end):
     """pathslice on an absolute normalised path: the components beg..end (negative: from the end; in a range -1 excludes the
     last component), each preceded by '/' in a range; it fits iff it is shorter than the buffer."""
@@ -701,11 +817,23 @@ def run(rep):
     for over in (4, 5, 6, 7, 8):
         for how in ('literal', 'tilde', 'macro', 'interp'):
             jobs.append(('destdecoy', over, how))
-    NEW = {'root': case_maildir_root, 'msg': case_message_path, 'isdir': case_isdirectory, 'destdecoy': case_destination_decoy}
+    # the default configuration path (no -f): HOME + "/.mdsort.conf" at PATH_MAX-3 .. PATH_MAX+3, decoy configurations at every truncation;
+    # HOME and TMPDIR themselves at PATH_MAX-2 .. PATH_MAX+2 (readenv copies both in every mode)
+    for hlen in range(PATH_MAX - 16, PATH_MAX - 9):
+        for mode in ('run', 'syntax', 'dry'):
+            jobs.append(('defconf', hlen, mode))
+    jobs.append(('defconf', 300, 'run'))
+    for n in range(PATH_MAX - 2, PATH_MAX + 3):
+        jobs.append(('envcopy', 'HOME', n))
+        jobs.append(('envcopy', 'TMPDIR', n))
+    NEW = {'root': case_maildir_root, 'msg': case_message_path, 'isdir': case_isdirectory, 'destdecoy': case_destination_decoy,
+           'defconf': case_default_conf}
 
     def do(j):
         if j[0] in NEW:
             return NEW[j[0]](tools, j[1], j[2])
+        if j[0] == 'envcopy':
+            return case_env_copy(tools, j[1], j[2])
         if j[0] == 'setfile':
             return case_set_file(tools, j[1])
         if j[0] == 'exectmp':
@@ -727,13 +855,25 @@ def run(rep):
         if r['problems']:
             rep.finding('unlisted', {'family': r['family'], 'length': r['length'], 'exit_status': r['status'], 'what': r['problems'][:4], 'stderr': r['stderr'],
                                      'config': r.get('config', '')})
+    __import__('c18seq').stage(rep, tools, sc, rng)     # position family: the failing path in the middle of an action list
     unit = unit_paths(rep, sc)
     if unit['model_mismatches'] and not rep.violations:
         rep.violation({'obligation': 'correspondence util.c (pathjoin, pathslice) <-> Model/Flags.lean', 'disagreements': unit['model_mismatches'],
                        'examples': unit['model_examples']}, False)
+    ustart = unit_start(rep, sc)
+    if ustart['model_mismatches'] and not rep.violations:
+        rep.violation({'obligation': 'correspondence mdsort.c (defaultconf, readenv) <-> Model/Start.lean', 'disagreements': ustart['model_mismatches'],
+                       'examples': ustart['model_examples']}, False)
     vlib.lean_conclude(rep)
     rep.coverage.update({
-        'evaluations': len(results) + unit['requests'],
+        'unit_start': ustart,
+        'start_rule': 'no -f option: HOME a real directory of PATH_MAX-16 .. PATH_MAX-10 characters holding the real .mdsort.conf and a decoy configuration '
+                      'under every proper prefix of that name, in a normal run, with -n and with -d: fits (HOME + 13 < PATH_MAX) => exactly that file is '
+                      'opened and obeyed; does not fit => error reported, non-zero exit, nothing moves, no configuration file opened, no call names a '
+                      'truncation; HOME and TMPDIR of PATH_MAX-2 .. PATH_MAX+2 characters in a maildir run (readenv copies both); unit: defaultconf() '
+                      'and readenv() of the real mdsort.c in-process against Model.defaultconf / Model.readenv and "accepted iff shorter than PATH_MAX, '
+                      'then complete"',
+        'evaluations': len(results) + unit['requests'] + ustart['requests'],
         'distinct_nontrivial': len([r for r in results if r['status'] != 0]),
         'rule': 'every length in a window of +-8 around the limit for: destination path literal / after ~ expansion / after macro expansion / '
                 'after interpolation (PATH_MAX), generated file name through the host name (NAME_MAX), TMPDIR of the stdin spool (PATH_MAX); real '
